@@ -82,11 +82,13 @@ impl AsyncFileSystem for AsyncPhysicalFS {
             Ok(()) => Ok(()),
             Err(e) => match e.kind() {
                 ErrorKind::AlreadyExists => {
-                    let metadata = async_std::fs::metadata(&fs_path).await.unwrap();
-                    if metadata.is_dir() {
-                        return Err(VfsError::from(VfsErrorKind::DirectoryExists));
+                    // metadata follows symlinks and can fail, e.g. for a dangling symlink
+                    match async_std::fs::metadata(&fs_path).await {
+                        Ok(metadata) if metadata.is_dir() => {
+                            Err(VfsError::from(VfsErrorKind::DirectoryExists))
+                        }
+                        _ => Err(VfsError::from(VfsErrorKind::FileExists)),
                     }
-                    Err(VfsError::from(VfsErrorKind::FileExists))
                 }
                 _ => Err(e.into()),
             },
